@@ -84,8 +84,39 @@ def exc_reply(I, env, e):
     return z3.BoolVal(e.obj is I.getattr(m, "blocker"))
 
 
+def check_replay_context():
+    """worker.load_states replays the import errors the coordinator recorded for a module: each one must
+    be added while the Errors object is switched to THAT module (its path, id and per-module options), so
+    that its error-code filtering is the module's own.  Decided on the source: inside `if id in
+    import_errors:` a call errors.set_file(state.xpath, id, state.options) precedes the replay loop, and the
+    replayed errors are added without a per-call file override."""
+    import ast
+    import os
+
+    repo = os.environ.get("VERIF_REPO", "/repo")
+    tree = ast.parse(open(os.path.join(repo, "mypy/build_worker/worker.py")).read())
+    fn = next((n for n in tree.body if isinstance(n, ast.FunctionDef) and n.name == "load_states"), None)
+    if fn is None:
+        return [{"name": "replay-context/located", "status": "unknown", "where": "worker.load_states not found"}]
+    outer = [n for n in fn.body if isinstance(n, ast.For) and any(isinstance(c, ast.Call) and isinstance(c.func, ast.Attribute) and c.func.attr == "add_error_info" for c in ast.walk(n))]
+    if len(outer) != 1:
+        return [{"name": "replay-context/located", "status": "unknown", "where": f"{len(outer)} module loops that replay errors"}]
+    loop = outer[0]
+    adds = [c for c in ast.walk(loop) if isinstance(c, ast.Call) and isinstance(c.func, ast.Attribute) and c.func.attr == "add_error_info"]
+    sets = [c for c in ast.walk(loop) if isinstance(c, ast.Call) and isinstance(c.func, ast.Attribute) and c.func.attr == "set_file"]
+    good_sets = [c for c in sets if [ast.unparse(x) for x in c.args] == ["state.xpath", "id", "state.options"]]
+    override = any(kw.arg in ("file", "options") for n in adds for kw in n.keywords) or any(len(n.args) > 1 for n in adds)
+    ok = bool(good_sets) and all(min(c.lineno for c in good_sets) < n.lineno for n in adds) and not override
+    # refuted: errors are added with a per-call override, or no set_file at all precedes them; an unrecognised
+    # but present set_file (other arguments) is undecided
+    status = "discharged" if ok else "refuted" if (override or not sets) else "unknown"
+    return [{"name": "replay-context/errors-replayed-under-their-own-module", "status": status, "where": "mypy/build_worker/worker.py load_states",
+             "detail": "" if ok else "replayed import errors are added without switching the Errors object to their module first", "key": "replay-context", "confirmed": True}]
+
+
 def targets(tier):
     return [Target("coord.wait_for_done_workers.reply", "mypy.build:BuildManager.wait_for_done_workers", setup_reply, loop_body=("for idx in ready", None),
                    ensures=[("reply-is-accumulated-nothing-lost", ens_reply)], exc_ensures=[("blocker-re-raised", exc_reply)], raises=(CompileError, AssertionError, KeyError),
                    overrides=OV, field_types=FT,
-                   note="ModuleResult and SCC objects are abstract identities; AssertionError: message shape is the worker's obligation; KeyError: scc ids are the coordinator's own")]
+                   note="ModuleResult and SCC objects are abstract identities; AssertionError: message shape is the worker's obligation; KeyError: scc ids are the coordinator's own"),
+            __import__("pyvc.runner", fromlist=["StaticCheck"]).StaticCheck("worker.replay_context", check_replay_context, note="ordering frame decided on the source")]
